@@ -62,6 +62,7 @@ type sim struct {
 	failedSwitch bool
 	buildHeight  uint32 // height of the block the transaction being built is meant for
 	nKeyed       int    // actors [0,nKeyed) hold keys; the rest are script actors
+	v2active     uint32 // simulated DPoS v2 activation height (0: never)
 	frozen       int    // actor whose address is frozen (-1: none)
 	frozenHeight uint32
 }
@@ -123,6 +124,7 @@ func execute(c *core.Ctx) {
 			s.node.close()
 		}
 	}()
+	s.checkSchedule()
 	for i := range steps {
 		if s.dead || c.Violated() {
 			break
@@ -154,7 +156,8 @@ func (s *sim) start(fresh bool) error {
 	cfg := baseConfig(&s.actors[0].acc.ProgramHash)
 	s.applyKnobs(cfg)
 	s.applyPolicyKnobs(cfg)
-	n, err := newNode(s.dir, cfg, s.actors[1%len(s.actors)].acc.Address)
+	s.v2active = uint32(s.c.Plan.Knob("v2active", 0))
+	n, err := newNode(s.dir, cfg, s.actors[1%len(s.actors)].acc.Address, s.v2active)
 	if err != nil {
 		return err
 	}
@@ -263,7 +266,7 @@ func propOfReason(why string) string {
 		return "C05"
 	case "merkle-root-mismatch", "duplicate-transaction", "second-coinbase", "first-tx-not-coinbase":
 		return "C07"
-	case "coinbase-overpays", "coinbase-underpays":
+	case "coinbase-overpays", "coinbase-underpays", "coinbase-output-count", "coinbase-share-wrong", "coinbase-address-wrong":
 		return "C11"
 	case "frozen-address":
 		return "C32"
@@ -530,12 +533,9 @@ func (s *sim) minePool() {
 	}
 	v.txs[cbID] = mb.height
 	v.subsidy.Add(v.subsidy, bigInt(int64(s.node.cfg.GetBlockReward(mb.height))))
-	want := bigInt(0).Add(fees, bigInt(int64(s.node.cfg.GetBlockReward(mb.height))))
-	if mb.selfOK && cbSum.Cmp(want) != 0 {
-		mb.selfOK, mb.why = false, "coinbase-overpays"
-		if cbSum.Cmp(want) < 0 {
-			mb.why = "coinbase-underpays"
-		}
+	if w := s.labelCoinbase(blk, mb.height, fees); w != "" && mb.selfOK {
+		// the node's own miner broke the issuance rule
+		mb.selfOK, mb.why = false, w
 	}
 	mb.valid = mb.selfOK && parent.valid
 	mb.work = bigInt(0).Add(parent.work, calcWork(blk.Header.Bits))
